@@ -28,7 +28,7 @@ MANIFEST = dict(
         "differential run of model, spec and the ASan/UBSan-built implementation on generated histories.",
    note="Trusted: Lean kernel + propext/Classical.choice/Quot.sound; tools/extract; the differential harness; glibc vsnprintf/realloc; allocation "
         "success (failure is C08). The model is hand-written: theorems are about the model, the correspondence run is testing. Tie by translation (new): printbuf_extend / printbuf_memappend / printbuf_memset are translated from clang's typed AST of the current source into Lean on every run (tools/extract/c2lean.py -> Generated/Translated.lean, integer-and-effects semantics: signed overflow = fault, calls and stores as an event trace) and Lemmas/TranslatedPb.lean proves, for all states and arguments, that Model/Printbuf.lean returns the same value, size, bpos, errno and performs the same realloc / memcpy / memset / NUL store (extend_agrees, extend_refused, memappend_agrees, memset_agrees); these theorems are rebuilt and axiom-audited with the property theorems. Trusted there: clang's AST, the translator, the access-path memory abstraction (distinct paths do not alias).",
-   technique="Lean 4 proof (invariant + refinement, induction over histories) + model/implementation correspondence run",
+   technique="Lean 4 proof (invariant + refinement, induction over histories) + model/implementation correspondence run + agreement theorems with Lean definitions translated from the current C source (clang AST) on every run",
    design="6/C19")
 
 
